@@ -47,10 +47,11 @@ class H:
     def S(self, t): return self.elems[self.suc[t]]
 
 
-def Inv(h, hole=None, X=None):
+def Inv(h, hole=None, X=None, whole=None):
     """X: optional predicate over tasks - the tasks exempt from W1r (detached subtrees that still carry a WBS label, as they exist between the
     release loop and the attach loop of the children setter); None = nobody"""
     f2 = And(c_ != null, h.par[c_] != null) if hole is None else And(c_ != null, h.par[c_] != null, c_ != hole)
+    wok = (w_ != W.null) if whole is None else And(w_ != W.null, w_ != whole)          # whole: a WBS object under construction (no hidden root yet)
     return {
         'C01/F1-listed-child-reports-that-parent': ForAll([t_, c_], Implies(And(t_ != null, mem(h.ch(t_), c_)), And(h.par[c_] == t_, c_ != null)), patterns=[mem(h.ch(t_), c_)]),
         'C01/F2-parent-lists-its-child': ForAll([c_], Implies(f2, mem(h.ch(h.par[c_]), c_)), patterns=[h.par[c_]]),
@@ -63,14 +64,14 @@ def Inv(h, hole=None, X=None):
         'N-null-has-no-parent': h.par[null] == null,
         'C11/W1-owner-follows-the-hierarchy': ForAll([t_, c_], Implies(Desc(h.par, t_, c_), h.own[c_] == h.own[t_]), patterns=[Desc(h.par, t_, c_)]),
         'C11/W1r-owner-only-if-reachable-from-that-WBS-root': ForAll([c_], Implies(And(c_ != null, h.own[c_] != W.null, *([] if X is None else [Not(X(c_))])), insub(h.par, h.root[h.own[c_]], c_)), patterns=[h.own[c_]]),
-        'C11/WR-hidden-roots': ForAll([w_], Implies(w_ != W.null, And(h.root[w_] != null, h.own[h.root[w_]] == w_, h.par[h.root[w_]] == null, h.tid[h.root[w_]] == EMPTY)), patterns=[h.root[w_]]),
+        'C11/WR-hidden-roots': ForAll([w_], Implies(wok, And(h.root[w_] != null, h.own[h.root[w_]] == w_, h.par[h.root[w_]] == null, h.tid[h.root[w_]] == EMPTY)), patterns=[h.root[w_]]),
         'C01/X1-no-link-along-the-hierarchy': ForAll([a_, b_], Implies(And(b_ != null, mem(h.P(b_), a_)), And(Not(Desc(h.par, a_, b_)), Not(Desc(h.par, b_, a_)), a_ != b_)), patterns=[mem(h.P(b_), a_)]),
         'C05/U1-ids-unique-within-every-tree': ForAll([a_, b_], Implies(And(a_ != null, b_ != null, a_ != b_, rootof(h.par, a_) == rootof(h.par, b_)), h.tid[a_] != h.tid[b_]),
                                                       patterns=[MultiPattern(rootof(h.par, a_), rootof(h.par, b_))]),
         'C01/M1-links-symmetric': ForAll([a_, b_], Implies(And(a_ != null, b_ != null), mem(h.P(b_), a_) == mem(h.S(a_), b_)), patterns=[mem(h.P(b_), a_), mem(h.S(a_), b_)]),
         'NN-no-None-in-links': ForAll([t_, a_], Implies(And(t_ != null, Or(mem(h.P(t_), a_), mem(h.S(t_), a_))), a_ != null), patterns=[mem(h.P(t_), a_), mem(h.S(t_), a_)]),
         'DR-reserved-id-marks-hidden-roots-only': ForAll([c_], Implies(And(c_ != null, h.tid[c_] == EMPTY), And(h.own[c_] != W.null, h.root[h.own[c_]] == c_)), patterns=[h.tid[c_]]),
-        'hidden-roots-have-no-links': ForAll([w_, a_], Implies(w_ != W.null, And(Not(mem(h.P(h.root[w_]), a_)), Not(mem(h.S(h.root[w_]), a_)))), patterns=[mem(h.P(h.root[w_]), a_), mem(h.S(h.root[w_]), a_)]),
+        'hidden-roots-have-no-links': ForAll([w_, a_], Implies(wok, And(Not(mem(h.P(h.root[w_]), a_)), Not(mem(h.S(h.root[w_]), a_)))), patterns=[mem(h.P(h.root[w_]), a_), mem(h.S(h.root[w_]), a_)]),
     }
 
 
